@@ -161,7 +161,7 @@ def build_driver(pkg, tags=None):
     return out
 
 
-def run_driver(binary, inp, timeout=1200, env=None, test="TestDriver"):
+def run_driver(binary, inp, timeout=420, env=None, test="TestDriver"):
     """Runs a driver binary on an input object; returns the list of result objects (ndjson)."""
     work = scratch("drv")
     try:
@@ -181,7 +181,10 @@ def run_driver(binary, inp, timeout=1200, env=None, test="TestDriver"):
             for line in open(op):
                 line = line.strip()
                 if line:
-                    results.append(json.loads(line))
+                    try:
+                        results.append(json.loads(line))
+                    except ValueError:
+                        pass  # truncated last line of a driver that was stopped
         if p.returncode != 0:
             raise Inconclusive("driver failed (rc=%d, %d results written):\n%s" % (p.returncode, len(results), p.stdout[-6000:]))
         return results
@@ -285,3 +288,76 @@ class Report:
             return 2
         print("OK property=%s" % self.prop)
         return 0
+
+
+# ------------------------------------------------------------------------------ trace validation
+
+def validate_traces(module, cfg, traces, timeout=600, batch=400):
+    """Validates recorded traces (lists of event dicts) against a Trace spec. Traces are concatenated with
+    {"ev":"reset"} separators and checked by TLC batch-wise (one JVM start per batch).
+    Returns (accepted, rejected:list of dict(index, at, event, kind)) where kind is 'invariant:<name>' when a
+    property invariant failed on the reconstructed state, or 'no-matching-action' (spec/code drift)."""
+    accepted, rejected = 0, []
+    i = 0
+    while i < len(traces):
+        chunk = traces[i:i + batch]
+        acc, rej = _validate_chunk(module, cfg, chunk, timeout)
+        accepted += acc
+        for r in rej:
+            r["index"] += i
+        rejected += rej
+        i += batch
+    return accepted, rejected
+
+
+def _validate_chunk(module, cfg, chunk, timeout):
+    lines, starts = [], []
+    for t in chunk:
+        starts.append(len(lines) + 1)
+        lines.append(json.dumps({"ev": "reset"}))
+        for e in t:
+            lines.append(json.dumps(e))
+    work = scratch("trace")
+    try:
+        tf = os.path.join(work, "trace.ndjson")
+        with open(tf, "w") as fh:
+            fh.write("\n".join(lines) + "\n")
+        r = tlc(module, cfg, workers=1, timeout=timeout, env={"VERIF_TRACE": tf}, deque=True)
+        if r.error and "timeout" in r.error:
+            raise Inconclusive("trace validation: " + r.error)
+        if r.violation is None and "TRACE-REJECTED-AT" not in r.raw and r.error is None:
+            return len(chunk), []
+        # locate the failing trace
+        kind, at = None, None
+        m = re.search(r"TRACE-REJECTED-AT\D+(\d+)", r.raw)
+        if r.violation and r.violation not in ("Progress",):
+            kind = "invariant:" + r.violation
+            # the state number of the violation = number of consumed lines; use the high-water mark printed in the trace
+            mm = re.findall(r"^/\\ l = (\d+)", r.raw, re.M)
+            at = int(mm[-1]) - 1 if mm else None
+        elif m:
+            kind, at = "no-matching-action", int(m.group(1))
+        else:
+            raise Inconclusive("trace validation failed unexpectedly: %s\n%s" % (r.error, r.raw[-2000:]))
+        if at is None:
+            at = 1
+        # which trace of the chunk?
+        idx = max(j for j, s in enumerate(starts) if s <= at)
+        ev = json.loads(lines[at - 1]) if 0 < at <= len(lines) else None
+        rej = [dict(index=idx, at=at - starts[idx], event=ev, kind=kind)]
+        # validate the traces before and after the failing one separately
+        before, after = chunk[:idx], chunk[idx + 1:]
+        acc = 0
+        if before:
+            a2, r2 = _validate_chunk(module, cfg, before, timeout)
+            acc += a2
+            rej = r2 + rej
+        if after:
+            a3, r3 = _validate_chunk(module, cfg, after, timeout)
+            acc += a3
+            for x in r3:
+                x["index"] += idx + 1
+            rej += r3
+        return acc, rej
+    finally:
+        shutil.rmtree(work, ignore_errors=True)
